@@ -287,6 +287,9 @@ def run_harness(h, tier, kf_features):
     cdir = prepare_crate(h["crate"])
     log = os.path.join(LOGS, h["name"] + ".log")
     timeout_s = h.get("timeout", 600 if tier == "quick" else 2400)
+    if tier == "quick":
+        # the quick tier is the every-change check: no single harness may run longer than this
+        timeout_s = min(timeout_s, int(os.environ.get("VERIF_QUICK_CAP", "900")))
     if not resolve_recursion(h, kf_features, cdir):
         return {"name": h["name"], "engine": "K", "crate": h["crate"], "wall_s": 0, "status": "inconclusive",
                 "reason": "could not resolve recursion symbols in the goto binary", "log": log}
